@@ -348,11 +348,11 @@ class RealFloat(numbers.Rational):
                 other = RealFloat.from_int(other)
             case float():
                 if math.isnan(other) or math.isinf(other):
-                    # Convert self to float and perform float arithmetic
-                    other_sgn = math.copysign(1.0, other) # extract the sign bit
-                    s = self._s != (other_sgn < 0)
-                    res_sgn = -1.0 if s else 1.0
-                    return other * res_sgn
+                    # ``self`` is finite, so only its sign and whether it is
+                    # zero matter: let float arithmetic apply the IEEE 754
+                    # rules (``0 * inf`` is NaN, signs multiply).
+                    unit = 0.0 if self._c == 0 else 1.0
+                    return other * (-unit if self._s else unit)
                 else:
                     other = RealFloat.from_float(other)
             case Fraction():
